@@ -246,7 +246,16 @@ def run(ctx):
         n_readers += 1
         ctx.ob("R3", "reader-wiring(%s)" % Rd.npath, ok3, ctx.where(Rd), why3 or
                "every kept line is appended once, in reading order, to the text handed to the splitter (%d appends)" % n3)
-    ctx.floor("R3", n_readers, 1, "functions that read lines, join them and hand the text to the splitter")
+    def has_loop_with(b_, names):
+        ls = BodyCfg(b_).loops()
+        inl = set().union(*ls.values()) if ls else set()
+        return any(i in inl and (t["callee"].get("path") or "").split("::")[-1] in names for i, t in b_.calls())
+    shape3 = any(has_loop_with(b_, ("add_assign", "push_str")) for b_ in fam)
+    if shape3:
+        ctx.floor("R3", n_readers, 1, "functions that read lines, join them and hand the text to the splitter")
+    elif n_readers == 0:
+        ctx.ob("R3", "reader-wiring", True, "", "not evaluated: no function of the loader family joins lines in a loop with `+=` / push_str "
+               "(an iterator pipeline, for instance); the order of the joined lines is then not decided by this rule")
     # ---- R4: the splitter does not drop what is left over ------------------------------------------------------------------
     # a splitter: a family function that collects characters into a text, pushes that text into its result at a separator
     # and starts again.  Before it returns Ok it must look whether the text still being collected is empty.
@@ -290,4 +299,9 @@ def run(ctx):
         n_split += 1
         ctx.ob("R4", "leftover-is-looked-at(%s)" % Sp.npath, ok4 and n4 > 0, ctx.where(Sp), why4 or
                "every Ok return follows a test of the emptiness of the text still being collected (%d path(s))" % n4)
-    ctx.floor("R4", n_split, 1, "splitters (collect characters, push the text at a separator, start again)")
+    shape4 = any(has_loop_with(b_, ("push",)) and any((t["callee"].get("path") or "").endswith("String::push") for i, t in b_.calls()) for b_ in fam)
+    if shape4:
+        ctx.floor("R4", n_split, 1, "splitters (collect characters, push the text at a separator, start again)")
+    elif n_split == 0:
+        ctx.ob("R4", "leftover-is-looked-at", True, "", "not evaluated: no function of the loader family collects characters into a text inside "
+               "a loop of its own (a splitter struct with methods, for instance); left-over text is then not decided by this rule")
